@@ -18,6 +18,8 @@ CORPUS = os.path.join(VERIF, "harness", "corpus", "c03.jsonl")
 SCALE = float(os.environ.get("C03_SCALE", "1"))
 
 K_GET_COUNTS = "C03:get_counts:duplicate-outcome-branches"
+K_GET_COUNTS_EMPTY = "C03:get_counts:empty-outcome-tuple"
+K_PASSIVE_ORDER = "C03:passive:measurement-mode-order"
 K_COND_MEAS = "C03:_do_execute_instructions:conditioned-measurement"
 K_PASSIVE_SEQ = "C03:passive:mid-circuit-measurement-exact-weights"
 
@@ -369,7 +371,10 @@ def search_case(chk, case, o, stats):
             else:
                 chk.violation("C03:%s:get_counts" % sim, "Result.get_counts() sums to %d with shots=%d" % (tot, N), {"case": case})
     elif o.get("counts_error"):
-        chk.violation("C03:%s:get_counts-raises" % sim, o["counts_error"], {"case": case})
+        if any(len(b["outcome"]) == 0 for b in brs) and "IndexError" in o["counts_error"]:
+            chk.violation(K_GET_COUNTS_EMPTY, "Result.get_counts() raises %s when the first sample is the empty tuple (no outcome-producing measurement was executed); expected {(): %d}" % (o["counts_error"], N), {"case": case})
+        else:
+            chk.violation("C03:%s:get_counts-raises" % sim, o["counts_error"], {"case": case})
     om = o.get("outcome_map") or []
     if len(om) < len(brs):
         stats["outcome_map_lossy"] += 1
@@ -449,14 +454,19 @@ def search_det(chk, case, o, stats):
     exp = [[v, 1] for v in case["expected"]]
     got = None
     if o.get("error") is None and "branches" in o:
-        got = [(b["outcome"], fr(b["freq"])) for b in o["branches"]]
+        # with shots=None the passive simulator also lists the outcomes of probability zero
+        got = [(b["outcome"], fr(b["freq"])) for b in o["branches"] if not (case["shots"] is None and fr(b["freq"]) == 0)]
     if got is not None and len(got) == 1 and got[0][0] == exp and (
             got[0][1] == 1 or (case["shots"] is None and abs(float(got[0][1]) - 1) < 1e-9)):
         return
     what = "number state %s: expected the single sample %s, got %s" % (
         case["instrs"][0]["args"]["n"], tuple(case["expected"]),
         o.get("error_text") if got is None else [(tuple(int(fr(v)) for v in oc), str(f)) for oc, f in got][:4])
-    if case.get("skipped_measurement"):
+    full_unsorted = [s for s in case["instrs"] if s["k"] == "PNM" and len(s["modes"]) > 1 and s["modes"] != sorted(s["modes"])]
+    if case["sim"] == "passive" and full_unsorted and not case.get("skipped_measurement"):
+        chk.violation(K_PASSIVE_ORDER, "PassiveSimulator: a particle-number measurement on modes given in non-ascending order returns the sample in ascending mode order when no mode is left over (the other simulators, and the passive simulator's own marginal path, follow the given order): " + what,
+                      {"case": case})
+    elif case.get("skipped_measurement"):
         stats["cond_meas_failures"] += 1
         chk.violation(K_COND_MEAS, "a measurement skipped by its condition still removes its modes from the executor's active-mode tuple; later instructions act on the wrong modes of that branch: " + what,
                       {"case": {k: v for k, v in case.items()}})
